@@ -302,6 +302,44 @@ func c20(c *Ctx) {
 	R.Count("blocking_ops_under_subsMu", nb)
 	R.Pass("C20.no-block-under-lock", "C20.no-block-under-lock/scan", "", fmt.Sprintf("lock-state scan of %d functions in cmd/spy (%d blocking operations under subsMu)", len(p.SrcFuncs(pkgSpy)), nb), "scan completed")
 
+	// ---- a mutex taken without a deferred unlock is released on every exit of the function that
+	// took it (an early return inside the critical section leaves it held for good: every later
+	// Publish, registration and removal blocks)
+	nlk := 0
+	for _, f := range p.SrcFuncs(pkgSpy) {
+		locks, deferred := false, false
+		eachInstr(f, func(i ssa.Instruction) {
+			switch x := i.(type) {
+			case *ssa.Call:
+				if x.Call.StaticCallee() != nil && len(x.Call.Args) > 0 && fieldOfAddr(x.Call.Args[0]) == mu {
+					if n := x.Call.StaticCallee().Name(); n == "Lock" || n == "RLock" {
+						locks = true
+					}
+				}
+			case *ssa.Defer:
+				if x.Call.StaticCallee() != nil && len(x.Call.Args) > 0 && fieldOfAddr(x.Call.Args[0]) == mu {
+					deferred = true
+				}
+			}
+		})
+		if !locks {
+			continue
+		}
+		nlk++
+		if deferred {
+			continue
+		}
+		held := lockState(f, mu, true)
+		eachInstr(f, func(i ssa.Instruction) {
+			r, ok := i.(*ssa.Return)
+			if !ok {
+				return
+			}
+			R.Check("C20.lockset", R.Key("C20.lockset", shortFn(f), "released-on-exit"), c.rel(p.Pos(instrPos(r))), "subsMu is not held when the function returns", !held[r], "a return inside the critical section leaves subsMu locked: every later Publish, subscribe and unsubscribe blocks forever")
+		})
+	}
+	R.Floor("C20.lockset.lockers", nlk, 2)
+
 	// ---- lock order: the mutexes of cmd/spy are always taken in one order (two paths taking two
 	// of them in opposite orders deadlock Publish and every registration/removal for good)
 	c20lockOrder(c, p)
